@@ -49,7 +49,7 @@ class SimTimeout(TimeoutError):
 FAIL_CLASSES = {"SimError": SimError, "SimLookup": SimLookup, "SimTimeout": SimTimeout}
 
 NAME = "components"
-PROPS = ("C05", "C06", "C07", "C14", "C02", "C12")
+PROPS = ("C05", "C06", "C07", "C14", "C02", "C12", "C18")
 RT = compreg.RTYPES
 
 
@@ -460,7 +460,13 @@ def make_main(plan: dict):
                     if plan.get("nest"):
                         outer = await outer_stack.enter_async_context(Context())
                         outer.add_resource(object(), "outer_marker")
-                    ctx = await outer_stack.enter_async_context(_Logged(Context(), sim, rnd))
+                    real_ctx = Context()
+                    # a listener on the calling context (opened before it is entered) hears
+                    # every publication the components make, under the name it really got
+                    ev_stream = await outer_stack.enter_async_context(
+                        real_ctx.resource_added.stream_events(max_queue_size=100000)
+                    )
+                    ctx = await outer_stack.enter_async_context(_Logged(real_ctx, sim, rnd))
                     h.real = ctx
                     h.instances = {}
                     t0 = sim.now()
@@ -526,6 +532,16 @@ def make_main(plan: dict):
                         if r[4] == "pub" and not r[5]["fac"] and r[5].get("round", rnd) == rnd:
                             pass
                     await h_post(h, sim, rnd)
+                    from asphalt.core import ResourceEvent as _RE
+
+                    ctx.resource_added.dispatch(_RE((), "__sentinel__", None, False))
+                    with move_on_after(5.0, shield=True):
+                        async for ev in ev_stream:
+                            if ev.resource_name == "__sentinel__":
+                                break
+                            names_ = [getattr(t_, "__name__", str(t_)) for t_ in ev.resource_types]
+                            if all(n_.startswith("T") and n_[1:].isdigit() for n_ in names_):
+                                sim.log("res_event", types=names_, name=ev.resource_name, is_factory=ev.is_factory, round=rnd)
                     sim.log("block_end", round=rnd)
             except BaseException as e:
                 sim.log("ctx_exit", exc=f"{type(e).__name__}: {str(e)[:80]}", round=rnd)
@@ -1040,6 +1056,24 @@ def oracle(sim: Sim, plan: dict) -> list[dict]:
             if r[4] == "plain_missing":
                 if r[5]["out"] != "notfound" or not r[5]["same_step"]:
                     v("C06.plain", "waited", f"a plain Context.get_resource for a missing resource gave {r[5]}")
+
+        # ---------------------------------------------------------------- C18: announced names
+        evs = [r[5] for r in tr if r[4] == "res_event" and not r[5]["name"].startswith("dk")]
+        if any(r[4] == "block_end" for r in tr):
+            for r in tr:
+                if r[4] != "pub":
+                    continue
+                d = r[5]
+                pnode = nodes[d["path"]]
+                spec = _find_pub(pnode, d["rid"])
+                want_name = final_name(pnode, spec, d["phase"]) if spec else d["name"]
+                mine = [e for e in evs if e["types"] == d["types"]]
+                ann = [e for e in mine if e["is_factory"] == d["fac"]]
+                if len(ann) != 1:
+                    v("C18.events", "component_publication", f"publication {d['rid']} by {d['path']} was announced {len(ann)} times on the calling context (events for its types: {mine})")
+                for e in mine:
+                    if e["name"] != want_name:
+                        v("C18.events", "component_remap", f"publication {d['rid']} by {d['path']} ({d['phase']}) is registered as {want_name!r} but was announced as {e['name']!r}")
 
         # ---------------------------------------------------------------- ownership
         for r in tr:
